@@ -201,7 +201,9 @@ cleanup_pthread:
 void
 qb_log_thread_pause(struct qb_log_target *t)
 {
-	if (t->threaded) {
+	/* wait for the logging thread whenever there is one: the record it is
+	 * writing may have been queued while this target was in threaded mode */
+	if (logt_wthread_lock != NULL) {
 		(void)qb_thread_lock(logt_wthread_lock);
 	}
 }
@@ -209,7 +211,7 @@ qb_log_thread_pause(struct qb_log_target *t)
 void
 qb_log_thread_resume(struct qb_log_target *t)
 {
-	if (t->threaded) {
+	if (logt_wthread_lock != NULL) {
 		(void)qb_thread_unlock(logt_wthread_lock);
 	}
 }
@@ -221,6 +223,12 @@ qb_log_thread_log_post(struct qb_log_callsite *cs,
 	struct qb_log_record *rec;
 	size_t buf_size;
 	size_t total_size;
+
+	if (logt_wthread_lock == NULL) {
+		/* no logging thread (yet): write now rather than queue */
+		qb_log_thread_log_write(cs, timestamp, buffer);
+		return;
+	}
 
 	rec = malloc(sizeof(struct qb_log_record));
 	if (rec == NULL) {
